@@ -1,8 +1,32 @@
-"""C02 - predictor reproduces the fitted training values; normalisation is exact.  (filled in below)"""
+"""C02 - predictor reproduces the fitted training values; normalisation is exact.
+
+translate  (a) translate/pymean.py: result tails of Predictor.mean / PredictorTime.mean / ExpPredictor.mean -> gen/C02Mean.v (R-valued);
+           (b) translate/pysym.py (pylogic + recorded constructor arguments, uninterpreted factorisation routines):
+               BaseEstimator._predictor_landmarks/_compute_Lp/_compute_L, the four _set_*_func setters, compute_Lp, compute_L,
+               validate_compute_L_input, the three compute_conditional* dispatchers, compute_average_cell_count, the self.n_obs
+               assignment of the three constructor bases, class / order tables -> gen/C02Dispatch.v;
+           (c) harness/matgen (world B): gen/MatGen.v for the matrix identities of props/C02mx.v.
+build      props/C02.v: normalize_exact, normalize_refuses, exp_predictor, *_predictor_consistent (4 setters),
+           dispatch_matches_factor, family_for_type, n_obs_spec(+_time), average_cell_count_default, order_and_classes,
+           chol_insample_exact, full_insample_error, dtc_insample_error.
+run        real fits (n <= 40) of DensityEstimator / TimeSensitiveDensityEstimator / DimensionalityEstimator (+ predict_density)
+           x gp_type x landmark form x rank form x kernel.  For every fit:
+           * correspondence (exact, inside Coq): predictor class(es), n_obs and inducing points of the generated model
+             (thm/C02Run.v, shape-only oracle) = those of the real estimator;
+           * independent oracle (NumPy, the identities of the property themselves): predictor at the training cells vs the
+             fitted values stored by the estimator - Cholesky-latent family: equal up to the forward error of the two
+             triangular solves (Higham Thm 8.5 bound computed from the estimator's own Lp), additionally <= 1e-9 relative;
+             full family: pred - y = -jitter * weights (hence |pred - y| <= jitter |w|) up to the backward error of the
+             Cholesky solve; inducing-point family: the proved expression of dtc_insample_error evaluated in NumPy;
+             normalize=True lowers the value by log(n_obs) with n_obs recomputed from the data / the normalize argument;
+             positive-valued predictors: predict(X) = exp(predict(X, logscale=True)) > 0;
+           * harness/c02_matrix.matrix_part: the same identities on the predictor classes directly (user-supplied Lp etc.).
+"""
 import ast
 import copy
 import logging
 import random
+import time
 
 import numpy as np
 
@@ -141,3 +165,393 @@ def translate_dispatch():
         + ["mellon.conditional.%s.__init__ (self.n_obs)" % b for b in BASE_INITS] \
         + ["class table of mellon/conditional.py", "prepare_inference / process_inference order tables (3 estimators)"]
     return text, funcs
+
+
+# ====================================================================== harness
+U = 2.0 ** -53
+FAMILY = {"FULL": "FullConditional", "FULL_NYSTROEM": "FullConditional", "SPARSE_CHOLESKY": "LandmarksConditionalCholesky",
+          "FIXED": "LandmarksConditionalCholesky", "SPARSE_NYSTROEM": "LandmarksConditional"}
+GP_TYPES = ["full", "full_nystroem", "sparse_cholesky", "sparse_nystroem", "fixed", None]
+KERNELS2 = ["Matern52", "ExpQuad"]
+
+
+def base_name(cls_name):
+    return cls_name.replace("Exp", "").replace("Time", "")
+
+
+def make_data(r, n, d, kind):
+    if kind == "clusters5":
+        cent = r.normal(size=(5, d)) * 4.0
+        x = np.repeat(cent, n // 5, axis=0) + 1e-3 * r.normal(size=(5 * (n // 5), d))
+        return x, cent
+    x = r.normal(size=(n, d)) * (1.0 if kind == "gauss" else np.linspace(1.0, 0.3, d)[None, :])
+    return x, None
+
+
+LM_FORMS = {"full": ["none", "m=n", "m>n"], "full_nystroem": ["none", "m=n", "m>n"],
+            "sparse_cholesky": ["none", "m<n", "m<n"], "sparse_nystroem": ["none", "m<n", "clusters5"],
+            "fixed": ["none", "m<n", "m=n", "m>n"], None: ["none", "m<n", "m=n", "m>n"]}
+RANK_FORMS = {"full_nystroem": ["default", 0.9, "int"], "sparse_nystroem": ["default", 0.9, "int", 0.999999],
+              None: ["default", "default", 0.8, "int"]}
+
+
+def config_stream(rng, thorough):
+    """(estimator, gp_type, landmark form, rank form, kernel) combinations that the option validation accepts;
+    thorough: the full product; quick: the historical witnesses + two configurations per (estimator, gp_type)"""
+    ests = ["DensityEstimator", "TimeSensitiveDensityEstimator", "DimensionalityEstimator"]
+    full = []
+    for e in ests:
+        for g in GP_TYPES:
+            for lf in sorted(set(LM_FORMS[g])):
+                for rk in RANK_FORMS.get(g, ["default"]):
+                    for k in KERNELS2:
+                        full.append(dict(est=e, gp=g, lm=lf, kernel=k, rank=rk))
+    special = []
+    for e in ests:
+        # the two historical witnesses (retained rank = number of landmarks; explicit m = n arbitrary landmarks) and neighbours
+        special.append(dict(est=e, gp="sparse_nystroem", lm="clusters5", kernel="Matern52", rank=0.99))
+        special.append(dict(est=e, gp=None, lm="m=n", kernel="Matern52", rank="default"))
+        special.append(dict(est=e, gp="full_nystroem", lm="m=n", kernel="Matern52", rank=0.9))
+        special.append(dict(est=e, gp=None, lm="clusters5", kernel="ExpQuad", rank=0.99))
+    if thorough:
+        rng.shuffle(full)
+        return special + full
+    pick = []
+    i = rng.randrange(12)
+    for e in ests:
+        for g in GP_TYPES:
+            forms = LM_FORMS[g]
+            ranks = RANK_FORMS.get(g, ["default"])
+            for rep in range(2):
+                i += 1
+                pick.append(dict(est=e, gp=g, lm=forms[(i + rep) % len(forms)], kernel=KERNELS2[(i + rep) % 2],
+                                 rank=ranks[(i // 2 + rep) % len(ranks)]))
+    return special + pick
+
+
+def build_case(c, r):
+    """data, landmarks and constructor arguments of one configuration; None when the combination is refused by design"""
+    import mellon
+    n = int(r.choice([20, 24, 32, 40]))
+    d = int(r.choice([1, 2, 3]))
+    time = c["est"] == "TimeSensitiveDensityEstimator"
+    if c["lm"] == "clusters5":
+        n = 40 if n == 40 else 20
+        x, cent = make_data(r, n, d, "clusters5")
+        lm = cent
+    else:
+        x, _ = make_data(r, n, d, str(r.choice(["gauss", "aniso"])))
+        lm = None
+        if c["lm"] == "m<n":
+            lm = x[r.choice(n, size=max(3, n // 4), replace=False)] + 0.05 * r.normal(size=(max(3, n // 4), d))
+        elif c["lm"] == "m=n":
+            lm = r.normal(size=(n, d))
+        elif c["lm"] == "m>n":
+            lm = np.vstack([x, r.normal(size=(3, d))])
+    nt = int(r.choice([2, 4]))
+    if time:
+        t = np.repeat(np.arange(nt, dtype=float), x.shape[0] // nt)
+        t = t[r.permutation(t.shape[0])]
+        x = np.hstack([x, t[:, None]])
+        if lm is not None:
+            lm = np.hstack([lm, r.integers(0, nt, size=(lm.shape[0], 1)).astype(float)])
+    n = x.shape[0]
+    kw = dict(gp_type=c["gp"], landmarks=lm, cov_func_curry=getattr(mellon.cov, c["kernel"]), jit=False)
+    rank = c["rank"]
+    if rank == "int":
+        m_eff = n if lm is None or c["gp"] in ("full", "full_nystroem") else lm.shape[0]
+        rank = max(2, m_eff // 2)
+    if rank != "default":
+        kw["rank"] = rank
+    if lm is None and c["gp"] in ("sparse_cholesky", "sparse_nystroem"):
+        kw["n_landmarks"] = max(3, n // 4)
+    if c["est"] == "DimensionalityEstimator":
+        kw["k"] = 5
+    normalize = None
+    if time:
+        normalize = [None, True, [10, 30], {0.0: 12, 1.0: 20}][int(r.integers(0, 4))]
+        if isinstance(normalize, dict):
+            normalize = {float(v): int(10 + 3 * i) for i, v in enumerate(range(nt))}
+        if isinstance(normalize, list):
+            normalize = [int(10 + 7 * i) for i in range(nt)]
+        kw["normalize_per_time_point"] = normalize
+    return x, lm, kw, normalize
+
+
+def chol_tol(Kxu, Lp, L, w, z, mu):
+    """forward-error bound of  K_xu (Lp^-T z)  vs  (Lp^-1 K_ux)^T z  in binary64 (Higham 2002, Thm 8.5 for the
+    two triangular solves, standard dot-product bounds for the products)"""
+    m = Lp.shape[0]
+    Li = np.abs(np.linalg.inv(Lp.T))
+    fwd = 16 * m * U * (Li @ (np.abs(Lp.T) @ np.abs(w)))
+    fwdL = 16 * m * U * ((np.abs(L) @ np.abs(Lp.T)) @ Li)
+    return np.abs(Kxu) @ fwd + fwdL @ np.abs(z) + 16 * m * U * (np.abs(Kxu) @ np.abs(w) + np.abs(L) @ np.abs(z)) + 8 * U * abs(mu)
+
+
+def insample_check(ctx, desc, x, cov, jitter, pred_obj, pred_x, fitted, mu, z, Lp, L, key_prefix, counts):
+    """the three in-sample identities, chosen by the predictor's family"""
+    from harness.wb_common import solve_tol
+    fam = base_name(type(pred_obj).__name__)
+    n = x.shape[0]
+    dev = np.abs(pred_x - fitted)
+    rep = dict(desc, family=fam, max_dev=float(dev.max()))
+    if fam == "LandmarksConditionalCholesky":
+        xu = np.asarray(pred_obj.landmarks, dtype=float)
+        w = np.asarray(pred_obj.weights, dtype=float)
+        Kxu = np.asarray(cov(x, xu), dtype=float)
+        counts["chol"] += 1
+        if Lp is None or Lp.shape != (xu.shape[0], xu.shape[0]) or L.shape[1] != xu.shape[0] or z.shape[0] != xu.shape[0]:
+            # the estimator has no landmark factor matching this predictor: nothing ties the latent vector to the inducing points
+            if not (dev <= 1e-9 * max(np.abs(fitted).max(), 1.0)).all():
+                ctx.violation(key_prefix + "|chol-insample", "Cholesky-latent predictor built without the estimator's landmark factor; "
+                              "it does not reproduce the fitted values", rep)
+            return
+        tol = chol_tol(Kxu, Lp, L, w, z, mu)
+        scale = max(np.abs(fitted).max(), 1.0)
+        if not (dev <= tol).all() or dev.max() > 1e-9 * scale + tol.max() * 0:
+            if not (dev <= tol).all() or dev.max() > 1e-9 * scale:
+                ctx.violation(key_prefix + "|chol-insample", "Cholesky-latent predictor at the training cells differs from the fitted values",
+                              dict(rep, bound=float(tol.max()), relative=float(dev.max() / scale)))
+    elif fam == "FullConditional":
+        w = np.asarray(pred_obj.weights, dtype=float)
+        K = np.asarray(cov(x, x), dtype=float)
+        A = K + jitter * np.eye(n)
+        ident = np.abs(pred_x - fitted + jitter * w)
+        tolf = solve_tol(A, w, fitted - mu) + 8 * n * U * float(np.max(np.abs(K) @ np.abs(w))) + 8 * U * (abs(mu) + np.abs(fitted).max())
+        counts["full"] += 1
+        rep.update(jw=float(jitter * np.abs(w).max()), bound=float(tolf))
+        if not (ident <= tolf).all() or not (dev <= jitter * np.abs(w) + tolf).all():
+            ctx.violation(key_prefix + "|full-insample", "full predictor: pred(X) - fitted != -jitter * weights (bound jitter*|w| violated)", rep)
+    else:
+        xu = np.asarray(pred_obj.landmarks, dtype=float)
+        w = np.asarray(pred_obj.weights, dtype=float)
+        Kxu = np.asarray(cov(x, xu), dtype=float)
+        Kuu = np.asarray(cov(xu, xu), dtype=float)
+        m = xu.shape[0]
+        rr = fitted - mu
+        c0, *_ = np.linalg.lstsq(Kxu, rr, rcond=None)
+        Ap = Kuu + jitter * np.eye(m)
+        M = Kxu.T @ Kxu + jitter * Ap
+        kap = np.linalg.cond(M) + np.linalg.cond(Kxu)
+        resid = np.linalg.norm(Kxu @ c0 - rr)
+        counts["dtc"] += 1
+        if resid <= 1e-9 * max(np.linalg.norm(rr), 1e-300) and kap < 1e9:
+            E = -jitter * Kxu @ np.linalg.solve(M, Ap @ c0)
+            kL = np.sqrt((np.linalg.norm(Kuu, 2) + jitter) / jitter)
+            told = 64 * m * U * kap * (np.abs(E).max() + jitter * np.abs(w).max() + jitter * np.abs(c0).max()) \
+                + solve_tol(M, w, Kxu.T @ rr, kL) / np.sqrt(jitter) + 1e-9 * np.abs(rr).max()
+            counts["dtc_exact"] += 1
+            rep.update(bound=float(told), proved_error=float(np.abs(E).max()))
+            if not (np.abs((pred_x - fitted) - E) <= told).all():
+                ctx.violation(key_prefix + "|dtc-insample", "inducing-point predictor: in-sample error differs from the proved expression", rep)
+        else:
+            # fitted values not (numerically) in the range of K_xu, or the system is too ill-conditioned for the exact
+            # expression to be evaluated: the predictor is then the regularised least-squares fit; check its normal equations
+            g = M @ w - Ap @ np.linalg.solve(Ap, Kxu.T @ rr) if False else None
+            lhs = Kxu.T @ (Kxu @ w - rr) + jitter * (Ap @ w)
+            kL = np.sqrt((np.linalg.norm(Kuu, 2) + jitter) / jitter)
+            tol2 = solve_tol(M, w, Kxu.T @ rr, kL) * kL + 1e-300
+            counts["dtc_normal_eq"] += 1
+            if not np.linalg.norm(lhs) <= tol2:
+                ctx.violation(key_prefix + "|dtc-normal-eq", "inducing-point predictor does not satisfy its normal equations on the fitted values",
+                              dict(rep, residual=float(np.linalg.norm(lhs)), bound=float(tol2)))
+
+
+def run(ctx):
+    import mellon
+    from harness import matgen
+    from harness.c02_matrix import matrix_part
+    from vlib import enc
+    mellon.logger.setLevel(logging.CRITICAL)
+    logging.getLogger("mellon").setLevel(logging.CRITICAL)
+    rng = random.Random(ctx.seed)
+    ctx.cov["trusted_base"] = TRUSTED_COMMON + [
+        "translate/pymean.py, translate/pysym.py (extensions of pyscalar / pylogic; fail closed)",
+        "the factorisation routines (_full_rank, _standard_low_rank, _modified_low_rank, _full_decomposition_low_rank), "
+        "compute_parameter_cov_factor, test_rank, log, k_means are uninterpreted in the dispatch model (theorems hold for every "
+        "behaviour); their matrix content is the world-B model (gen/MatGen.v, C01/C04)",
+        "BaseEstimator._prepare_attribute ('compute only when None') and process_inference are modelled by the generated order tables",
+        "library contracts of world B (cholesky, solve_triangular: validated by harness.c02_matrix / C01)",
+    ]
+    gen = {}
+    funcs = []
+    ok = True
+    timing = {}
+    t0 = time.time()
+    try:
+        t, f = pymean.translate_means(REPO)
+        gen["gen/C02Mean.v"] = t
+        funcs += f
+    except (ScalarUnsupported, Unsupported) as u:
+        ctx.broken.append(Broken("translation", "predictor mean tails", str(u)))
+        ok = False
+    try:
+        t, f = translate_dispatch()
+        gen["gen/C02Dispatch.v"] = t
+        funcs += f
+    except Unsupported as u:
+        ctx.broken.append(Broken("translation", "predictor dispatch", str(u)))
+        ok = False
+    try:
+        mg, mf, _meta, _tr = matgen.translate_all(REPO)
+        gen.update(mg)
+        funcs += mf
+    except (matgen.Unsupported, matgen.PathError) as u:
+        ctx.broken.append(Broken("translation", "matrix model", str(u)))
+        ok = False
+    ctx.cov["translated_functions"] = funcs
+    built = False
+    if ok:
+        built = ctx.build_props(gen, extra_targets=["props/C02mx.vo", "lib/MxFloat.vo", "thm/C02Run.vo"])
+
+    timing['translate+build'] = round(time.time() - t0, 1)
+    t0 = time.time()
+    # ---- world-B searcher on the predictor classes (user-supplied Lp, synthetic y ...)
+    mcounts = matrix_part(ctx, rng, ctx.thorough)
+    timing['matrix_part'] = round(time.time() - t0, 1)
+    t0 = time.time()
+
+    # ---- end-to-end fits
+    from harness.wb_common import real_module
+    cfgs = config_stream(rng, ctx.thorough)
+    budget = 420 if ctx.thorough else 60
+    counts = dict(chol=0, full=0, dtc=0, dtc_exact=0, dtc_normal_eq=0, normalize=0, exp=0, refused=0, fits=0, retained_rank_equals_m=0)
+    cases, meta = [], []
+    dist = {}
+    samples = []
+    for ci, c in enumerate(cfgs[:budget]):
+        r = np.random.default_rng(rng.randrange(2 ** 31))
+        x, lm, kw, normalize = build_case(c, r)
+        cls = getattr(mellon, c["est"])
+        desc = dict(estimator=c["est"], gp_type=c["gp"], landmarks=c["lm"], kernel=c["kernel"], rank=repr(kw.get("rank", "default")),
+                    n=int(x.shape[0]), d=int(x.shape[1]), m=None if lm is None else int(lm.shape[0]),
+                    normalize_per_time_point=repr(normalize), data_seed=ci, verif_seed=ctx.seed,
+                    x=x.tolist(), landmarks_array=None if lm is None else lm.tolist())
+        try:
+            est = cls(**kw)
+            est.fit(x)
+        except ValueError:
+            counts["refused"] += 1          # inconsistent option combination (C15 decides which are)
+            continue
+        counts["fits"] += 1
+        g = est.gp_type.name
+        key = "C02|%s|%s" % (c["est"], g)
+        dist[key] = dist.get(key, 0) + 1
+        X = np.asarray(est.x, dtype=float)
+        n = X.shape[0]
+        jitter = float(est.jitter)
+        cov = est.cov_func
+        Lp = None if est.Lp is None else np.asarray(est.Lp, dtype=float)
+        L = np.asarray(est.L, dtype=float)
+        z = np.asarray(est.pre_transformation, dtype=float)
+        short = {k: v for k, v in desc.items() if k not in ("x", "landmarks_array")}
+        if g == "SPARSE_NYSTROEM" and est.landmarks is not None and L.shape[1] == np.asarray(est.landmarks).shape[0]:
+            counts["retained_rank_equals_m"] += 1
+        if len(samples) < 6:
+            samples.append(dict(short, resolved=g, predictor=type(est.predict).__name__))
+        # predictors to examine: (predictor object, fitted values in the predictor's log scale, mu, latent vector, exp?)
+        todo = []
+        if c["est"] == "DimensionalityEstimator":
+            todo.append((est.predict, np.log(np.asarray(est.local_dim_x, dtype=float)), float(est.mu_dim), z[0], True, "local_dim"))
+            todo.append((est.predict_density, np.asarray(est.log_density_x, dtype=float), float(est.mu_dens), z[1], False, "density"))
+        else:
+            todo.append((est.predict, np.asarray(est.log_density_x, dtype=float), float(est.mu), z, False, "density"))
+        # --- correspondence with the generated model (class, n_obs, inducing points)
+        lm_attr = est.landmarks
+        enc_lm = "VNone" if lm_attr is None else enc.val(np.asarray(lm_attr, dtype=float))
+        pz = int(z.shape[-1])
+        gx = enc.val(X)
+        rk = enc.val(est.rank if not hasattr(est.rank, "item") else est.rank.item())
+        jt = enc.val(jitter)
+
+        def describe(p):
+            xu = getattr(p, "landmarks", None) if base_name(type(p).__name__) != "FullConditional" else None
+            nobs = p.n_obs
+            nobs = int(nobs) if float(nobs) == int(nobs) and not isinstance(nobs, float) else float(nobs)
+            return "(VTuple [VStr %s; %s; %s])" % (enc.coq_str(type(p).__name__), enc.val(nobs),
+                                                   "VNone" if xu is None else enc.val(np.asarray(xu, dtype=float)))
+        exact_nobs = True
+        if c["est"] == "DensityEstimator":
+            model = "run_density (VEnum %s) %s %s %s %s %d" % (g, gx, enc_lm, rk, jt, pz)
+            expect = "(Ok %s)" % describe(est.predict)
+        elif c["est"] == "TimeSensitiveDensityEstimator":
+            model = "run_time (VEnum %s) %s %s %s %s %s %d" % (g, gx, enc_lm, rk, jt, enc.val(normalize), pz)
+            expect = "(Ok %s)" % describe(est.predict)
+            nobs = float(est.predict.n_obs)
+            exact_nobs = nobs == int(nobs)        # n / n_times is compared exactly only when it is an integer
+        else:
+            model = "run_dim (VEnum %s) %s %s %s %s %d" % (g, gx, enc_lm, rk, jt, pz)
+            expect = "(Ok (VTuple [%s; %s]))" % (describe(est.predict), describe(est.predict_density))
+        if exact_nobs:
+            cases.append((model, expect))
+            meta.append(short)
+        # --- independent oracle: the identities of the property
+        for pred_obj, fitted, mu, zz, is_exp, what in todo:
+            kp = key + "|" + what
+            fam = base_name(type(pred_obj).__name__)
+            if fam != FAMILY[g]:
+                ctx.violation(kp + "|family", "predictor family does not match the resolved type",
+                              dict(desc, resolved=g, predictor=type(pred_obj).__name__, expected=FAMILY[g]))
+            if is_exp:
+                p_log = np.asarray(pred_obj(X, logscale=True), dtype=float)
+                p_val = np.asarray(pred_obj(X), dtype=float)
+                counts["exp"] += 1
+                # exp is one correctly-rounded-to-1ulp library call on the same float input: 4 ulp
+                if not (p_val > 0).all() or not (np.abs(p_val - np.exp(p_log)) <= 4 * 2 * U * np.abs(p_val)).all():
+                    ctx.violation(kp + "|exp", "positive-valued predictor: predict(X) != exp(predict(X, logscale=True)) or not > 0",
+                                  dict(desc, max_dev=float(np.abs(p_val - np.exp(p_log)).max())))
+                pred_x = p_log
+            else:
+                pred_x = np.asarray(pred_obj(X), dtype=float)
+                # normalisation: independent recomputation of n_obs
+                if c["est"] == "TimeSensitiveDensityEstimator":
+                    nt = np.unique(X[:, -1]).shape[0]
+                    if normalize is None or isinstance(normalize, bool):
+                        n_expected = n / nt
+                    elif isinstance(normalize, dict):
+                        n_expected = sum(normalize.values()) / nt
+                    else:
+                        n_expected = float(np.sum(np.asarray(normalize))) / len(normalize)
+                    p_norm = np.asarray(pred_obj(X[:, :-1], time=X[:, -1], normalize=True), dtype=float)
+                else:
+                    n_expected = n
+                    p_norm = np.asarray(pred_obj(X, normalize=True), dtype=float)
+                counts["normalize"] += 1
+                lowered = pred_x - p_norm
+                # one subtraction of log(n_obs) in binary64: |error| <= u(|pred| + |log n|) + ulp of log
+                tol_n = 4 * U * (np.abs(pred_x) + abs(np.log(n_expected)) + 1.0)
+                if not (np.abs(lowered - np.log(n_expected)) <= tol_n).all() or float(pred_obj.n_obs) != float(n_expected):
+                    ctx.violation(kp + "|normalize", "normalize=True does not lower the value by log(number of training cells)",
+                                  dict(desc, expected_n_obs=float(n_expected), n_obs=float(pred_obj.n_obs),
+                                       lowered_by=float(np.median(lowered)), expected=float(np.log(n_expected))))
+            insample_check(ctx, desc, X, cov, jitter, pred_obj, pred_x, fitted, mu, zz, Lp, L, kp, counts)
+    timing['fits'] = round(time.time() - t0, 1)
+    t0 = time.time()
+    n_bad = 0
+    if built and cases:
+        try:
+            bad = ctx.run_cases("c02_dispatch", "PyVal PyValExtC02 C02Dispatch C02DispatchThm C02Run", cases, shard=12)
+        except Broken as b:
+            ctx.broken.append(b)
+            bad = {}
+        for i, shown in list(bad.items())[:10]:
+            n_bad += 1
+            ctx.broken.append(Broken("correspondence", "dispatch model", "fit %r: model gives %s" % (meta[i], shown[:600])))
+    timing['coq_cases'] = round(time.time() - t0, 1)
+    ctx.cov["timing_s"] = timing
+    ctx.cov["evaluations"] = len(cases) + counts["chol"] + counts["full"] + counts["dtc"] + counts["normalize"] + counts["exp"] + sum(mcounts.values())
+    ctx.cov["traces_validated_against_impl"] = len(cases)
+    ctx.cov["distinct_nontrivial"] = len(dist)
+    ctx.cov["input_distribution"] = dict(dist, **{"checks": counts, "matrix_part": mcounts})
+    ctx.cov["real_fits"] = counts["fits"]
+    ctx.cov["samples"] = samples
+    ctx.cov["rule"] = ("real fits (n in {20,24,32,40}, d in {1,2,3}; 3 estimators + the companion density predictor x 6 gp_type settings x landmark "
+                       "forms none / m<n / explicit m=n arbitrary points / m>n / 5 tight clusters on 5 landmarks x rank default / float / int x "
+                       "Matern52, ExpQuad; quick tier: the special list + one configuration per (estimator, gp_type)); per fit: exact Coq "
+                       "correspondence of (predictor class, n_obs, inducing points) with the generated dispatch model, in-sample identity of the "
+                       "predictor's family with a derived floating-point bound, normalisation, exp/logscale; distinct_nontrivial = distinct "
+                       "(estimator, resolved type) pairs fitted; plus harness.c02_matrix.matrix_part on the predictor classes")
+    ctx.assumptions += [
+        "factorisation routines are uninterpreted in the dispatch theorems; their algebra is proved in world B under the Cholesky contract",
+        "floating-point tolerances are forward/backward error bounds (Higham 2002 Thm 8.5, 10.4) evaluated on the estimator's own matrices",
+    ]
